@@ -238,58 +238,7 @@ func runC02(c *core.Ctx) {
 			c.Check("sticky-partition", "stickyBalance:walk", fn.Pos(), okWalk, "the cumulative walk must subtract each candidate's weight from the hash value and select that candidate exactly when the value drops below 0")
 		}
 	}
-	// ---- published sub-cluster list is sorted ---------------------------------------------------------------
-	scf, ok := c.P.Obj(gslb, "BalanceGslb.subClusters").(*types.Var)
-	if !ok {
-		c.Missing(gslb + ".BalanceGslb.subClusters")
-		return
-	}
-	byFn := map[*ssa.Function][]core.StoreTo{}
-	for _, st := range core.FieldStores(c.P.SrcFuncs(""), scf) {
-		byFn[st.Fn] = append(byFn[st.Fn], st)
-	}
-	nPub := 0
-	for fn, sts := range byFn {
-		c.Analysed(core.FuncKey(fn))
-		sorts := core.Calls(fn, "sort.Sort")
-		for i, st := range sts {
-			nPub++
-			ok := false
-			why := ""
-			for _, s := range sorts {
-				l := sortedList(s)
-				if l == nil {
-					continue
-				}
-				si := s.(ssa.Instruction)
-				// (A) the stored value itself was sorted before the store, with no append in between
-				if core.StripConv(l) == core.StripConv(st.Store.Val) && core.Dominates(si, st.Store) {
-					ok = true
-				}
-				// (B) the field is sorted in place after the store on every path to a success return
-				if core.Render(l) == core.Render(st.Store.Addr) {
-					bad := core.ReachAvoiding(fn, st.Store, func(x ssa.Instruction) bool { return x == si }, func(x ssa.Instruction) bool {
-						r, isR := x.(*ssa.Return)
-						if !isR {
-							return false
-						}
-						rv := core.RetVals(r)
-						return len(rv) == 0 || isNilConst(rv[len(rv)-1])
-					})
-					if bad == nil {
-						ok = true
-					} else {
-						why = "a success return is reachable without the in-place sort"
-					}
-				}
-			}
-			c.Check("published-sorted", fmt.Sprintf("%s:store#%d", core.FuncKey(fn), i), st.Store.Pos(), ok,
-				"the list stored into BalanceGslb.subClusters is not the value sort.Sort was applied to (whole list, after the last append), nor is the field sorted afterwards on every success path; hash selection would depend on map iteration / reload history. "+why)
-		}
-	}
-	if nPub < 2 {
-		c.Check("published-sorted", "stores", token.NoPos, false, fmt.Sprintf("expected stores to BalanceGslb.subClusters in Init and Reload, found %d", nPub))
-	}
+	publishedSorted(c, "published-sorted")
 	// avail index from sorted list (shared with C03's avail-index rule)
 	if fld, ok := c.P.Obj(gslb, "BalanceGslb.avail").(*types.Var); ok {
 		for _, st := range core.FieldStores(c.P.SrcFuncs(gslb), fld) {
@@ -421,5 +370,66 @@ func runC02(c *core.Ctx) {
 			}
 		}
 		c.Check("gslb-partition", fname+":store", fn.Pos(), okStore, "bal.totalWeight must be assigned the accumulated sum")
+	}
+}
+
+// publishedSorted checks, for every store to BalanceGslb.subClusters, that the
+// stored list is the value sort.Sort was applied to (whole list, after its
+// last append) or that the field is sorted in place before every success
+// return. Shared by C02 (order independence of hashing) and C14 (the list is
+// a function of the configuration only, not of reload history).
+func publishedSorted(c *core.Ctx, rule string) {
+	const gslb = "bfe_balance/bal_gslb"
+	// ---- published sub-cluster list is sorted ---------------------------------------------------------------
+	scf, ok := c.P.Obj(gslb, "BalanceGslb.subClusters").(*types.Var)
+	if !ok {
+		c.Missing(gslb + ".BalanceGslb.subClusters")
+		return
+	}
+	byFn := map[*ssa.Function][]core.StoreTo{}
+	for _, st := range core.FieldStores(c.P.SrcFuncs(""), scf) {
+		byFn[st.Fn] = append(byFn[st.Fn], st)
+	}
+	nPub := 0
+	for fn, sts := range byFn {
+		c.Analysed(core.FuncKey(fn))
+		sorts := core.Calls(fn, "sort.Sort")
+		for i, st := range sts {
+			nPub++
+			ok := false
+			why := ""
+			for _, s := range sorts {
+				l := sortedList(s)
+				if l == nil {
+					continue
+				}
+				si := s.(ssa.Instruction)
+				// (A) the stored value itself was sorted before the store, with no append in between
+				if core.StripConv(l) == core.StripConv(st.Store.Val) && core.Dominates(si, st.Store) {
+					ok = true
+				}
+				// (B) the field is sorted in place after the store on every path to a success return
+				if core.Render(l) == core.Render(st.Store.Addr) {
+					bad := core.ReachAvoiding(fn, st.Store, func(x ssa.Instruction) bool { return x == si }, func(x ssa.Instruction) bool {
+						r, isR := x.(*ssa.Return)
+						if !isR {
+							return false
+						}
+						rv := core.RetVals(r)
+						return len(rv) == 0 || isNilConst(rv[len(rv)-1])
+					})
+					if bad == nil {
+						ok = true
+					} else {
+						why = "a success return is reachable without the in-place sort"
+					}
+				}
+			}
+			c.Check(rule, fmt.Sprintf("%s:store#%d", core.FuncKey(fn), i), st.Store.Pos(), ok,
+				"the list stored into BalanceGslb.subClusters is not the value sort.Sort was applied to (whole list, after the last append), nor is the field sorted afterwards on every success path; hash selection would depend on map iteration / reload history. "+why)
+		}
+	}
+	if nPub < 2 {
+		c.Check(rule, "stores", token.NoPos, false, fmt.Sprintf("expected stores to BalanceGslb.subClusters in Init and Reload, found %d", nPub))
 	}
 }
